@@ -309,12 +309,12 @@ func init() {
 		kinds:      []string{"notrace", "snap.reg", "snap.decs", "snap.foreign", "info.onreject", "crash", "verdict", "exec.extra", "exec.inreg", "viz.misbehaved"},
 		run: genericRun(stagePlan{
 			covers: []coverPlan{
-				randCover("reject", tweak(small, func(f *fam.Features) { f.Types = 2; f.PNamed = 0.05; f.Ctors = 4; f.Decs = 2 }), rec, 60, 400, 0),
+				randCover("reject", tweak(small, func(f *fam.Features) { f.Types = 2; f.PNamed = 0.05; f.Ctors = 3; f.Decs = 1; f.PInvalid = 0.7 }), rec, 40, 400, 0),
 				digraphCover("digraphs-req", "req", rec, 100, 1500),
 				digraphCover("digraphs-grp", "grp", rec, 50, 800),
 				structCover("shadow", fam.Shadow, rec, false, 60, 0, 2, 0),
 			},
-			traces: stdTraces("reject", tweak(medium, func(f *fam.Features) { f.Types = 3 }), 0.05, stdOpts),
+			traces: stdTraces("reject", tweak(medium, func(f *fam.Features) { f.Types = 3; f.PInvalid = 0.8 }), 0.05, stdOpts),
 			sig:    true})})
 
 	register(&propDef{id: "C07",
@@ -433,8 +433,8 @@ func init() {
 			return contains(d, "foreignpanic")
 		},
 		run: genericRun(stagePlan{
-			covers: []coverPlan{randCover("badinput", small, allOpts, 60, 400, 1)},
-			traces: stdTraces("badinput", medium, 0.1, allOpts),
+			covers: []coverPlan{randCover("badinput", tweak(small, func(f *fam.Features) { f.PInvalid = 0.9; f.Ctors = 2 }), allOpts, 60, 400, 1)},
+			traces: stdTraces("badinput", tweak(medium, func(f *fam.Features) { f.PInvalid = 0.9 }), 0.1, allOpts),
 			sig:    true})})
 
 	register(&propDef{id: "C15",
